@@ -245,7 +245,7 @@ def interpret(unit, g, raw, off, path):
         is_verif = bool(re.search(r'postcondition not satisfied|precondition not satisfied|invariant not satisfied|assertion failed|'
                                   r'arithmetic underflow/overflow|possible division by zero|decreases not satisfied|'
                                   r'could not prove termination|bit shift underflow/overflow|assertion not satisfied|'
-                                  r'failed precondition|unable to prove', msg))
+                                  r'failed precondition|unable to prove|precondition not met|requires not satisfied', msg))
         if re.search(r'Resource limit|rlimit|timed out|not supported|unsupported|does not support', msg) or d.get('code'):
             is_verif = False
         if not is_verif or not spans:
